@@ -8,7 +8,7 @@ b = json.load(open("/root/.vp/BASELINE.json"))
 out = tempfile.mkdtemp(prefix="vf_baseline_")
 xml = os.path.join(out, "junit.xml")
 cmd = f"cd {repo} && /venv/bin/python -m pytest -ra -q -p no:cacheprovider --timeout=900 --continue-on-collection-errors --junitxml={xml}"
-env = dict(os.environ); env.pop("PYTHONPATH", None); env.pop("VGI_RPC_VERIF", None)
+env = dict(os.environ); env["PYTHONPATH"] = repo; env.pop("VGI_RPC_VERIF", None)
 r = subprocess.run(cmd, shell=True, env=env, stdout=open(os.path.join(out, "log"), "w"), stderr=subprocess.STDOUT)
 passed, failed = set(), set()
 for tc in ET.parse(xml).getroot().iter("testcase"):
